@@ -334,4 +334,60 @@ theorem connOut_take_prefix (H : Crypto.Prims) (P : Prims) (info : Nat → Pipel
   have := Props.C08.build_prefix _ _ (List.IsPrefix.map (toRec fun id => (info id).ts) htr) ga gb ba bb
   exact List.IsPrefix.map _ this
 
+-- ====================================================================== non-vacuity
+namespace Ex
+open TLX.Props.C01.Ex
+
+def sessOf (d : Dec) (v : Session.Ver) : Session.St Dec := { canDecrypt := true, ver := some v, dec := some d }
+
+-- `Ready` is inhabited for a legacy and a TLS 1.3 class (decryptor built by `Dec.init` over the toy primitives) …
+example : ∃ s x, Ready (.aead12 .aesccm 8) 32 x s :=
+  let ⟨d, _, h⟩ := init_rel_pre13 Toy.prims Toy.laws (.aead12 .aesccm 8) rfl .tls12 (by intro h; cases h) 32
+    (by decide) 128 trivial (some 8) false rfl k16 k16' iv4 iv4 (by decide) (by decide)
+  ⟨sessOf d .tls12, _, rfl, ⟨.tls12, rfl, by decide⟩, d, rfl, h⟩
+example : ∃ s x, Ready (.cbcImplicit .tdes false) 20 x s :=
+  let ⟨d, _, h⟩ := init_rel_pre13 Toy.prims Toy.laws (.cbcImplicit .tdes false) rfl .tls10 (Or.inr rfl) 20
+    (by decide) 64 rfl (some 16) false rfl k24 k24 iv8 iv8 (by decide) (by decide)
+  ⟨sessOf d .tls10, _, rfl, ⟨.tls10, rfl, by decide⟩, d, rfl, h⟩
+example : ∃ s x, Ready (.aead13 .aesgcm 16) 32 x s :=
+  let ⟨d, _, h⟩ := init_rel_13 Toy.prims (.aead13 .aesgcm 16) rfl 32 128 none false rfl k16 iv12 k16' iv12 k16' iv12 k16 iv12
+    (by decide) (by decide) (by decide) (by decide)
+  ⟨sessOf d .tls13, _, rfl, ⟨.tls13, rfl, by decide⟩, d, rfl, h⟩
+
+-- … and so are the hypotheses on histories: application data in both directions (empty plaintext, a plaintext
+-- ending in zero bytes, TLS 1.3 padding), handshake flights with one Finished each
+def fin : HsMsg := (20, k32)
+def sflight : List HsMsg := [(8, [0, 0]), (11, k16), (15, k24), fin]
+
+example : finCount sflight = 1 ∧ finCount [fin] = 1 ∧ (∀ m ∈ sflight, MsgOk m) := by decide
+example : ∀ e ∈ [Ev.send false 23 hi ⟨iv8, [], [], 0⟩, Ev.send true 23 [] ⟨iv8, [], [], 0⟩], IsAppSend e := by
+  intro e he; simp at he; rcases he with rfl | rfl <;> rfl
+example : SEv.Ok (.aead13 .aesgcm 16) 32 (.hs13 true sflight ⟨[], [], [], 2⟩) := ⟨rfl, by decide⟩
+
+/-- what `Session` over the composed toy decryptor exports for a history: (data, direction, application tag) -/
+def observe (cls : CipherClass) (v : Session.Ver) (rv : Version) (macLen blockLen : Nat) (k : Keys) (x : Snd)
+    (m : Bool) (hist : List (SEv × List Nat)) : Option (List (Option Bytes × Bool × Bool)) :=
+  match Dec.init Toy.prims (bulkOf cls) rv macLen (some (tagOf cls)) blockLen (etmOf cls) k with
+  | .ok d =>
+    some ((Session.run (Pipeline.ops Crypto.toyPrims Toy.prims []) m (sessOf d v)
+      (recsOf Toy.prims Toy.laws cls [3, 3] x hist)).traffic.map fun e => (e.data, e.fromServer, e.isApp))
+  | .error _ => none
+
+-- concrete histories evaluated by the kernel
+example : observe (.cbcImplicit .tdes false) .tls10 .tls10 20 64 (keys4 k24 k24 iv8 iv8)
+    ⟨SDir.init k24 iv8 [] [], SDir.init k24 iv8 [] []⟩ false
+    [(.app false hi ⟨[], mac20, [9], 0⟩, [1]), (.app false [] ⟨[], mac20, [3, 3, 3], 0⟩, [2, 3]),
+     (.app true k16 ⟨[], mac20, [1, 2, 3], 0⟩, [4])]
+    = some [(some hi, false, true), (some [], false, true), (some k16, true, true)] := by decide +kernel
+example : observe (.aead13 .aesgcm 16) .tls13 .tls13 32 128
+    { cHsKey := some k16, sHsKey := some k16', cAppKey := some k16', sAppKey := some k16,
+      cHsIv := some iv12, sHsIv := some iv12, cAppIv := some iv12, sAppIv := some iv12 }
+    ⟨SDir.init k16 iv12 k16' iv12, SDir.init k16' iv12 k16 iv12⟩ true
+    [(.hs13 true sflight ⟨[], [], [], 3⟩, [1, 2]), (.hs13 false [fin] ⟨[], [], [], 0⟩, [3]),
+     (.app false hi ⟨[], [], [], 5⟩, [4]), (.app true [] ⟨[], [], [], 0⟩, [5]),
+     (.app true [7, 0, 0] ⟨[], [], [], 2⟩, [6])]
+    = some [(some hi, false, true), (some [], true, true), (some [7, 0, 0], true, true)] := by decide +kernel
+
+end Ex
+
 end TLX.Props.C01Pipeline
